@@ -17,10 +17,14 @@ RULE_TEXT = (
     "bursts to the group and to 2-3 other peers that wrap at other moments and with empty sends; class traffic: a real announcer with 1 ms "
     "cyclic offers answering rogue FindService / Subscribe traffic from 3 peers at different rates for 70-140 simulated seconds; class "
     "notify (engine svc): a SimpleService with 1 ms cyclic notifications to several subscribers. non-trivial = at least one destination "
-    "crossed its wrap-around; distinct = interleaving signature"
+    "crossed its wrap-around; distinct = interleaving signature. Cheap classes on top of these: many (60-300 distinct destinations - "
+    "hosts and ports - contacted in seeded order, the early ones and the group again afterwards: the per-destination table must not "
+    "forget anybody; non-trivial = at least 65 destinations) and notify-race (the C17 workload: explicit rounds with a seeded resolver "
+    "latency racing initial notifications of further subscriptions of the same endpoint; non-trivial = notifications judged)"
 )
-PROBES = ["wraps_crossed", "destinations", "empty_sends", "messages_judged", "second_wrap"]
-RUNS = {"quick": 16, "thorough": 1600}
+PROBES = ["wraps_crossed", "destinations", "empty_sends", "messages_judged", "second_wrap", "more_than_64_destinations"]
+HEAVY = {"quick": 16, "thorough": 1600}
+RUNS = {"quick": 16 + 800, "thorough": 1600 + 80000}
 SELFTEST_N = 2  # each plan is 130 000+ transmissions
 OFFER = ["offer", 0x1111, 1, 1, 0, 3]
 
@@ -133,7 +137,50 @@ def gen_notify(seed, idx):
     return {"engine": "svc", "property": ID, "class": "notify", "seed": seed, "cfg": cfg, "ops": ops, "until": dur}
 
 
+def gen_many(seed, idx):
+    """many destinations, few messages each: the table of outgoing counters must keep every one of them"""
+    r = rng(seed, ID, "many", idx)
+    nd = r.choice([60, 64, 65, 66, 70, 100, 300])
+    dests = []
+    for j in range(nd):
+        dests.append([f"10.{1 + j // 200}.{r.randrange(4)}.{1 + j % 200}", r.choice([30490, 30490, 30491, 40000 + j])])
+    ops = [{"k": "call", "t": 0.0, "f": "start", "a": []}]
+    t = 0.01
+    first = r.choice([None, 0, 1])
+    ops.append({"k": "call", "t": t, "f": "send_burst", "a": [[OFFER], first, r.randint(1, 9)]})
+    contacted = []
+    for d in dests:
+        t = round(t + 0.001, 6)
+        ops.append({"k": "call", "t": t, "f": "send_burst", "a": [[OFFER], d, r.choice([1, 1, 2, 5])]})
+        contacted.append(d)
+        u = r.random()
+        if u < 0.15:
+            ops.append({"k": "call", "t": t, "f": "send_burst", "a": [[OFFER], r.choice(contacted[:8] + [first, None]), r.randint(1, 3)]})
+        elif u < 0.2:
+            ops.append({"k": "call", "t": t, "f": "send_burst", "a": [[], r.choice(contacted), 1]})
+    for _ in range(r.randint(5, 40)):
+        t = round(t + 0.001, 6)
+        ops.append({"k": "call", "t": t, "f": "send_burst", "a": [[OFFER], r.choice(contacted[:10] + contacted + [first, None, 2]), r.randint(1, 3)]})
+    cfg = {"timings": {"SUBSCRIBE_REFRESH_INTERVAL": None, "INITIAL_DELAY_MIN": 0, "INITIAL_DELAY_MAX": 0, "REPETITIONS_MAX": 0}}
+    return {"engine": "single", "property": ID, "class": "many", "seed": seed, "cfg": cfg, "ops": ops, "until": round(t + 1.0, 6)}
+
+
+def gen_notify_race(seed, idx):
+    """the C17 workload (explicit and cyclic rounds, seeded resolver latency, further subscriptions of an endpoint that is
+    already served, counters, second eventgroup), judged here for the per-destination id sequence on the wire only"""
+    from . import c17
+
+    plan = c17.gen(seed, idx * 10 + 9 if idx % 2 else idx * 10 + 1, "quick")
+    plan["property"] = ID
+    plan["class"] = "notify-race"
+    return plan
+
+
 def gen(seed, idx, tier):
+    heavy = HEAVY.get(tier, 16)
+    if idx >= heavy:
+        j = idx - heavy
+        return gen_many(seed, j // 2) if j % 2 == 0 else gen_notify_race(seed, j // 2)
     k = idx % 8
     if k == 3:
         return gen_traffic(seed, idx // 4)
@@ -152,7 +199,8 @@ def check_notify(plan, res):
     probes = {"messages_judged": o.nmsg, "wraps_crossed": wraps, "destinations": len(o.session.count)}
     for rec in res.swallowed:
         viol.append(("NOTIFY-SEQUENCE", {"msg": f"{rec[2]} in a notification task at {rec[0]:.6f}", "context": f"task-raised:{rec[2]}"}))
-    return {"violations": viol[:20], "nontrivial": wraps > 0, "probes": probes, "states": set(), "foreign": bool(res.loop_exc or res.op_exc)}
+    nontrivial = wraps > 0 if plan.get("class") != "notify-race" else o.nmsg > 0
+    return {"violations": viol[:20], "nontrivial": nontrivial, "probes": probes, "states": set(), "foreign": bool(res.loop_exc or res.op_exc)}
 
 
 def check(plan, res):
@@ -207,7 +255,10 @@ def check(plan, res):
         else:
             foreign = True
     states = {hash((d[0], min(n, 3 * 0xFFFF) // 0x4000)) & 0xFFFFFFFFFFFF for d, n in model.count.items()}
-    return {"violations": viol[:20], "nontrivial": wraps > 0, "probes": probes, "states": states, "foreign": foreign}
+    nontrivial = wraps > 0 if plan.get("class") != "many" else len(model.count) >= 65
+    if plan.get("class") == "many":
+        probes["more_than_64_destinations"] = int(len(model.count) > 64)
+    return {"violations": viol[:20], "nontrivial": nontrivial, "probes": probes, "states": states, "foreign": foreign}
 
 
 def site(rule, plan, detail):
